@@ -1,0 +1,44 @@
+//! Verification hook (C12): mounted as `crate::consensus::verif_handshake` (a child of `consensus`, so that
+//! the `pub(super)` handshake functions are reachable). Thin wrappers, no behaviour of their own.
+use zksync_concurrency::ctx;
+use zksync_consensus_roles::validator;
+
+use super::handshake;
+use crate::{noise, verif::handshake::HsError};
+
+fn class(e: handshake::Error) -> (HsError, String) {
+    let s = format!("{e:#}");
+    let c = match e {
+        handshake::Error::GenesisMismatch => HsError::Genesis,
+        handshake::Error::SessionIdMismatch => HsError::Session,
+        handshake::Error::PeerMismatch => HsError::Peer,
+        handshake::Error::Signature(_) => HsError::Signature,
+        handshake::Error::Stream(_) => HsError::Stream,
+    };
+    (c, s)
+}
+
+/// `consensus::handshake::outbound`.
+pub(crate) async fn outbound(
+    ctx: &ctx::Ctx,
+    me: &validator::SecretKey,
+    genesis: validator::GenesisHash,
+    stream: &mut noise::Stream,
+    peer: &validator::PublicKey,
+) -> Result<(), (HsError, String)> {
+    handshake::outbound(ctx, me, genesis, stream, peer)
+        .await
+        .map_err(class)
+}
+
+/// `consensus::handshake::inbound`.
+pub(crate) async fn inbound(
+    ctx: &ctx::Ctx,
+    me: &validator::SecretKey,
+    genesis: validator::GenesisHash,
+    stream: &mut noise::Stream,
+) -> Result<validator::PublicKey, (HsError, String)> {
+    handshake::inbound(ctx, me, genesis, stream)
+        .await
+        .map_err(class)
+}
